@@ -12,7 +12,8 @@ the order in which the Go code issues them:
                                                                             batch of hsh, fin, hrs
   dot/state/grandpa.go           ApplyScheduledChanges / ApplyForcedChanges → startNextAuthoritySet
                                  (auth, change, setID — `Cfg.incrementFirst` gives the order the code had
-                                 before the repair: setID, auth, change), SetLatestRound
+                                 before the repair: setID, auth, change; the activation block is the finalised
+                                 block's number resp. the forced change's best finalized number), SetLatestRound
   dot/state/grandpa_changes.go   the pending-change trackers (memory only; they decide WHETHER a change is
                                  applied)
   lib/blocktree                  AddBlock / RangeInMemory / IsDescendantOf / Prune on a flat list of nodes
@@ -233,6 +234,13 @@ def Node.isDesc (n : Node) (anc d : Nat) : Option Bool :=
     | some dh, some ah => fallbackLoop n anc ah.number (dh.number + 1) dh
     | _, _ => none
 
+/-- `GrandpaState.isDescendantOf`: `bs.IsDescendantOf`, but a block the block state does not know any more
+    (ErrNotFound — a fork dropped by a finalisation) is "not a descendant" instead of an error -/
+def Node.gIsDesc (n : Node) (anc d : Nat) : Option Bool :=
+  match n.isDesc anc d with
+  | some b => some b
+  | none => some false
+
 /-- `bt.AddBlock` -/
 inductive AddRes where
   | ok | parentNotFound | exists_ | badNumber
@@ -351,7 +359,7 @@ def sortSearch (f : Nat → Bool) : Nat → Nat → Nat → Nat
 def forcedImport (n : Node) (c : Change) : Option (List Change) :=
   let check := lookupWhere (fun (x : Change) =>
     if x.ann.id = c.ann.id then none
-    else match n.isDesc x.ann.id c.ann.id with
+    else match n.gIsDesc x.ann.id c.ann.id with
       | none => none
       | some true => none
       | some false => some false) n.forced
@@ -369,7 +377,7 @@ mutual
 def importNode (n : Node) (c : Change) : PNode → Option (Option PNode)
   | .mk x kids =>
     if c.ann.id = x.ann.id then none
-    else match n.isDesc x.ann.id c.ann.id with
+    else match n.gIsDesc x.ann.id c.ann.id with
       | none => none
       | some false => some none
       | some true =>
@@ -418,7 +426,7 @@ def handleDigest (n : Node) (b : Hdr) : ChangeSpec → Node × Bool
 def applyForced (cfg : Cfg) (n : Node) (b : Hdr) : Node × Bool :=
   let found := lookupWhere (fun (c : Change) =>
     if b.id = c.ann.id ∧ c.eff = b.number then some true
-    else match n.isDesc c.ann.id b.id with
+    else match n.gIsDesc c.ann.id b.id with
       | none => none
       | some d => some (d && decide (c.eff = b.number))) n.forced
   match found with
@@ -427,25 +435,21 @@ def applyForced (cfg : Cfg) (n : Node) (b : Hdr) : Node × Bool :=
   | some (some fc) =>
     let dependant := lookupWhere (fun (p : PNode) =>
       if p.change.eff > fc.bestFin then some false
-      else n.isDesc p.change.ann.id fc.ann.id) n.sched
+      else n.gIsDesc p.change.ann.id fc.ann.id) n.sched
     match dependant with
     | none => (n, false)
     | some (some _) => (n, false)
     | some none =>
-      match n.db.curSet with
-      | none => (n, false)
-      | some cur =>
-        let n := n.put (.change cur fc.bestFin)
-        match startNext cfg n fc.tag fc.eff with
-        | (n, false) => (n, false)
-        | (n, true) => ({ n with forced := [], sched := [] }, true)
+      match startNext cfg n fc.tag fc.bestFin with
+      | (n, false) => (n, false)
+      | (n, true) => ({ n with forced := [], sched := [] }, true)
 
 /-- the condition of `findApplicableChange` -/
 def schedCond (n : Node) (hash number : Nat) (p : PNode) : Option Bool :=
   if p.change.eff > number then some false
   else
     let onChain : Option Bool :=
-      if hash ≠ p.change.ann.id then n.isDesc p.change.ann.id hash else some true
+      if hash ≠ p.change.ann.id then n.gIsDesc p.change.ann.id hash else some true
     match onChain with
     | none => none
     | some false => some false
@@ -453,14 +457,14 @@ def schedCond (n : Node) (hash number : Nat) (p : PNode) : Option Bool :=
       let rec kidsLoop : List PNode → Option Bool
         | [] => some true
         | k :: ks =>
-          match n.isDesc k.change.ann.id hash with
+          match n.gIsDesc k.change.ann.id hash with
           | none => none
           | some d => if k.change.ann.number ≤ number ∧ d then none else kidsLoop ks
       kidsLoop p.kids
 
 /-- `ApplyScheduledChanges(finalizedHeader)`; Bool = no error -/
 def applyScheduled (cfg : Cfg) (n : Node) (b : Hdr) : Node × Bool :=
-  match filterWhere (fun (c : Change) => n.isDesc b.id c.ann.id) n.forced with
+  match filterWhere (fun (c : Change) => n.gIsDesc b.id c.ann.id) n.forced with
   | none => (n, false)
   | some forced =>
     let n := { n with forced := forced }
@@ -468,12 +472,16 @@ def applyScheduled (cfg : Cfg) (n : Node) (b : Hdr) : Node × Bool :=
     else match lookupWhere (schedCond n b.id b.number) n.sched with
       | none => (n, false)
       | some none =>
-        match filterWhere (fun (p : PNode) => n.isDesc b.id p.change.ann.id) n.sched with
+        match filterWhere (fun (p : PNode) =>
+            match n.gIsDesc b.id p.change.ann.id with
+            | none => none
+            | some true => some true
+            | some false => n.gIsDesc p.change.ann.id b.id) n.sched with
         | none => (n, false)
         | some roots => ({ n with sched := roots }, true)
       | some (some p) =>
         let n := { n with sched := p.kids }
-        startNext cfg n p.change.tag p.change.eff
+        startNext cfg n p.change.tag b.number
 
 /-! ### scenario operations (what the harness re-enacts) -/
 
